@@ -323,11 +323,18 @@ def run(ck: Check):
                             else:
                                 MDNS.clear()
                                 MDNS["dev"] = ([], ["10.9.9.9"]) if op.endswith("1") else "e"
+                                had, ncl = mgr._aiozc, len(CLOSE_LOG)
                                 try:
                                     fh.loop().run_until_complete(hr._async_zeroconf_get_service_info(
                                         mgr, hr.SERVICE_TYPE, "dev." + hr.SERVICE_TYPE, "dev.local.", 1.0))
                                 except ResolveAPIError:
                                     pass
+                                # a lookup closes only an instance it caused to be created itself: one the manager already
+                                # held (supplied, or made earlier by the library and still in use) survives it
+                                if had is not None and (mgr._aiozc is not had or len(CLOSE_LOG) != ncl):
+                                    ck.violation("c20:lookup-closed-instance-in-use", "C20 violated on the implementation: an mDNS lookup "
+                                                 "closed / dropped a zeroconf instance the manager already held before the lookup",
+                                                 {"constructed_with_instance": bool(sup), "ops": list(seq[: k + 1]), "close_log": list(CLOSE_LOG)})
                         except RuntimeError:
                             raised = 1
                         lines.append(f"zc.op {op}")
